@@ -16,8 +16,10 @@
 EXTENDS ThreadSync, IOUtils
 VARIABLES l,      \* next line of the trace
           seq,    \* seq[t] = sequence number of t's last event
-          pend    \* pend[t] = object whose unlock result is still to come, 0 if none
-tvars == <<l, seq, pend>>
+          pend,   \* pend[t] = object whose unlock result is still to come, 0 if none
+          owe,    \* lockables for which a failed lock_nowait was logged BEFORE the acquisition that explains it
+          held    \* held[t] = lockables that were held by somebody at some moment since t's previous event
+tvars == <<l, seq, pend, owe, held>>
 Tr == ndJsonDeserialize(IOEnv.TRACE)
 ev == Tr[l]
 HasEv == l <= Len(Tr)
@@ -32,7 +34,8 @@ ObsTrace(op, args, ret, post) ==
 MaxReg == 7
 Seen(k) == TLCSet(MaxReg, IF k > TLCGet(MaxReg) THEN k ELSE TLCGet(MaxReg))
 
-TraceInit == /\ Init /\ l = 1 /\ seq = [t \in Thr |-> 0] /\ pend = [t \in Thr |-> 0]
+TraceInit == /\ Init /\ l = 1 /\ seq = [t \in Thr |-> 0] /\ pend = [t \in Thr |-> 0] /\ owe = {}
+             /\ held = [t \in Thr |-> {}]
              /\ TLCSet(MaxReg, 1)
 
 R == ev.r = 1
@@ -41,7 +44,13 @@ Consume == /\ l' = l + 1
            /\ ev.n = seq[ev.t] + 1
            /\ seq' = [seq EXCEPT ![ev.t] = ev.n]
 
+\* (evaluated after the event's action: own' is known)
+HeldUpd == held' = [u \in Thr |-> (IF u = ev.t THEN {} ELSE held[u]) \cup {o \in Lk : own'[o] # NONE}]
+LkOps == {"lock", "try", "unlock", "wait_begin", "twait_begin", "wait_end", "twait_end", "signal", "bcast"}
+AcqOps == {"lock", "try", "wait_end", "twait_end"}
+
 EvReset == /\ ev.op = "reset"
+           /\ owe = {} /\ UNCHANGED owe /\ held' = [t \in Thr |-> {}]
            /\ l' = l + 1
            /\ seq' = [t \in Thr |-> 0] /\ pend' = [t \in Thr |-> 0]
            /\ own' = [o \in Lk |-> NONE]
@@ -56,18 +65,22 @@ EvUnlockRet == /\ ev.op = "unlock_ret"
                /\ pend[ev.t] = ev.o /\ ev.o # 0
                /\ ev.r = 1                                  \* IDEAL: unlock by the owner answers TRUE
                /\ pend' = [pend EXCEPT ![ev.t] = 0]
-               /\ UNCHANGED lvars
+               /\ UNCHANGED <<lvars, owe>> /\ HeldUpd
                /\ Seen(l + 1)
 \* the controlling thread's final look at the protected scalar, when every worker is gone
 EvEnd == /\ ev.op = "end"
          /\ Consume
          /\ ev.v = cnt
-         /\ UNCHANGED <<lvars, pend>>
+         /\ owe = {}
+         /\ UNCHANGED <<lvars, pend, owe>> /\ HeldUpd
          /\ Seen(l + 1)
 
 EvCall ==
     /\ Consume
     /\ pend[ev.t] = 0                                        \* no event between an unlock and its result
+    \* an owed acquisition comes before anything else happens to that lockable (failed attempts apart)
+    /\ (ev.op \in LkOps /\ ev.o \in owe) => (ev.op \in AcqOps)
+    /\ owe' = IF ev.op \in AcqOps /\ ev.r = 1 THEN owe \ {ev.o} ELSE owe
     /\ \/ ev.op = "lock" /\ OpLock(ev.t, ev.o, R) /\ UNCHANGED pend
        \/ ev.op = "try" /\ OpTry(ev.t, ev.o, R) /\ UNCHANGED pend
        \/ ev.op = "unlock" /\ OpUnlock(ev.t, ev.o, TRUE) /\ pend' = [pend EXCEPT ![ev.t] = ev.o]
@@ -90,7 +103,29 @@ EvCall ==
        \/ ev.op = "chk" /\ OpChk(ev.t, R) /\ UNCHANGED pend
        \/ ev.op = "setres" /\ OpSetRes(ev.t) /\ UNCHANGED pend
        \/ ev.op = "chkres" /\ OpChkRes(ev.t, ev.o, R) /\ UNCHANGED pend
+    /\ HeldUpd
     /\ Seen(l + 1)                                           \* (evaluated only when the event was accepted)
+
+\* lock_nowait answered FALSE although the model sees the mutex free at this line.  A failed attempt acquires nothing, so
+\* nothing orders its log line against the holder's: the call itself happened at some moment between the thread's previous
+\* event and this line.  Legitimate iff
+\*  (a) the lockable was held at some moment in that window (held[t]; covers a release in flight - a releasing call is
+\*      logged BEFORE it is made), or
+\*  (b) the thread that holds it has not logged its acquisition yet (an acquisition is logged AFTER it returned): accepted
+\*      on credit - the very next thing that happens to this lockable must be that acquisition.
+\* (What this cannot see: a lock_nowait that fails on a free mutex exactly inside such a window.)
+EvTryEarly ==
+    /\ ev.op = "try" /\ ev.r = 0
+    /\ Consume
+    /\ pend[ev.t] = 0
+    /\ Ready(ev.t)
+    /\ own[ev.o] = NONE
+    /\ \/ /\ (ev.o \in held[ev.t] \/ (ev.o \in Cnd /\ wt[ev.o] # {})) = TRUE
+          /\ UNCHANGED owe
+       \/ owe' = owe \cup {ev.o}
+    /\ UNCHANGED <<lvars, pend>>
+    /\ HeldUpd
+    /\ Seen(l + 1)
 
 \* silent composition, only in front of the event that needs it
 EvSilent ==
@@ -102,7 +137,7 @@ EvSilent ==
        \/ /\ ev.op \in {"signal", "bcast"} /\ ev.o \in Cnd             \* a sleeper whose time ran out just before the signal
           /\ \E t \in wt[ev.o] \cap tw : OpTimeout(t, ev.o)
 
-TraceStep == HasEv /\ (EvReset \/ EvUnlockRet \/ EvEnd \/ EvCall \/ EvSilent)
+TraceStep == HasEv /\ (EvReset \/ EvUnlockRet \/ EvEnd \/ EvCall \/ EvTryEarly \/ EvSilent)
 TraceSpec == TraceInit /\ [][TraceStep]_<<lvars, tvars>>
 \* accepted iff some interleaving of the silent steps consumes every line
 TraceAccepted == \/ TLCGet(MaxReg) - 1 = Len(Tr)
